@@ -1,5 +1,6 @@
 """C05 - a BMP session follows the RFC 7854 lifecycle for every order of messages."""
 from props.pipe_common import *
+from gens import bmpwiregen
 PROPS_FILE = "Props_C05.v"
 RULE = ("exhaustive message sequences up to a bounded length over {Initiation, Peer Up (EoR-capable or not), Peer Down, "
         "Route Monitoring announce / withdraw / End-of-RIB / unparsable, Statistics, Termination} x 2 peers on one router, plus "
@@ -43,7 +44,11 @@ def corpus():
             f"C 0;I 0;U 0 0 1;R 0 0 0 3 1 0 -;D 0 0 {r};D 0 0 {r};R 0 0 0 3 2 0 -;U 0 0 1;R 0 0 0 3 2 0 -" for r in (0, 1, 2, 3, 4, 6, 9, 255)]
 
 
-ENGINES = [{"name": "pipe", "gen": gen, "corpus": corpus, "nontrivial": nontrivial, "classify": pipegen.classify, "shards": 12}]
+ENGINES = [{"name": "pipe", "gen": gen, "corpus": corpus, "nontrivial": nontrivial, "classify": pipegen.classify, "shards": 12},
+           # BMP on the wire: frames from the proved encoder of Bmp/BmpWire.v and a malformed stream, through the real bmp_read,
+           # routecore's parser and the state machine (op WB of the pipe engine)
+           {"name": "bmpwire", "gen": bmpwiregen.gen, "corpus": bmpwiregen.corpus, "nontrivial": bmpwiregen.nontrivial,
+            "classify": bmpwiregen.classify, "shards": 12}]
 known_signature = known_signature_for({"K2"})
 LEVEL_TEXT = ("Theorems over all message sequences of the session state-machine model: phases only move forward, Invalid outcomes are exactly the "
               "lifecycle violations and change no state and are counted, routes are only taken from up peers under that peer's id, the downstream "
